@@ -25,8 +25,10 @@ import time
 VERIF = os.path.dirname(os.path.dirname(os.path.abspath(__file__)))
 REPO = os.environ.get("VERIF_REPO", "/repo")
 SPEC = os.path.join(VERIF, "spec")
-HARNESS = os.path.join(VERIF, "harness")
-EVIDENCE = os.path.join(VERIF, "evidence")
+# (development only: VERIF_HARNESS / VERIF_EVIDENCE point a run at a copy of the harness whose go.mod replaces the project
+# with a clean worktree, while a seeded change is applied to /repo; registered commands never set them)
+HARNESS = os.environ.get("VERIF_HARNESS", os.path.join(VERIF, "harness"))
+EVIDENCE = os.environ.get("VERIF_EVIDENCE", os.path.join(VERIF, "evidence"))
 FINDINGS = os.path.join(VERIF, "known_findings.txt")
 TLA_CP = "/opt/veriftools/tla/tla2tools.jar:/opt/veriftools/tla/CommunityModules-deps.jar"
 NCPU = os.cpu_count() or 4
